@@ -415,6 +415,10 @@ type CWorld struct {
 	connMu sync.Mutex
 	// counter: when set, every verifier the principal parser hands out counts its Verify calls here
 	counter *int64
+	// keepCtx: the validation context is built once and used for every Access on this world (a service
+	// that keeps its context); the caller then passes the same runLog each time
+	keepCtx bool
+	ctx     validator.ValidationContext[NbMap]
 }
 
 // fakeSigner claims one DID and signs with another principal's key (or absentee).
@@ -1000,8 +1004,16 @@ func (cw *CWorld) spineOf(a validator.Authorization[NbMap]) []spineItem {
 
 // Access runs validator.Access on the world's invocation.
 func (cw *CWorld) Access(log *runLog) (outcome string, spine []spineItem, flags string) {
-	canIssue, checker, resolveProof, parse, resolveKey, authority := cw.context(log)
-	ctx := validator.NewValidationContext(authority, cw.capability(log), canIssue, checker, resolveProof, parse, resolveKey)
+	var ctx validator.ValidationContext[NbMap]
+	if cw.keepCtx && cw.ctx != nil {
+		ctx = cw.ctx
+	} else {
+		canIssue, checker, resolveProof, parse, resolveKey, authority := cw.context(log)
+		ctx = validator.NewValidationContext(authority, cw.capability(log), canIssue, checker, resolveProof, parse, resolveKey)
+		if cw.keepCtx {
+			cw.ctx = ctx
+		}
+	}
 	// history: the genuine tokens whose signatures the altered ones carry have been seen (and accepted)
 	// by this process before - what an attacker re-addressing a real token relies on
 	for _, p := range cw.Pristine {
